@@ -29,12 +29,19 @@ template <size_t N> static void genfill(Rng& r, HWAddress<N>& x) { uint8_t b[N];
 template <size_t N> static void genfill(Rng& r, small_uint<N>& x) { x = small_uint<N>((typename small_uint<N>::repr_type)r.edgy(N)); }
 static void genfill(Rng& r, float& x) { x = 0.5f * (float)(1 + r.below(126)); }
 static void genfill(Rng& r, double& x) { x = 0.5 * (double)(1 + r.below(126)); }
+static void genfill(Rng& r, RSNInformation& x) {      // a class with an API of its own: built through it (suite lists of different lengths, so a swapped count shows)
+    static const RSNInformation::CypherSuites cs[] = {RSNInformation::WEP_40, RSNInformation::TKIP, RSNInformation::CCMP, RSNInformation::WEP_104, RSNInformation::GCMP_128, RSNInformation::CCMP_256};
+    static const RSNInformation::AKMSuites ak[] = {RSNInformation::EAP, RSNInformation::PSK, RSNInformation::EAP_FT, RSNInformation::PSK_FT, RSNInformation::EAP_SHA256, RSNInformation::SAE_SHA256};
+    x = RSNInformation(); x.version((u16)r.edgy(16)); x.group_suite(cs[r.below(6)]); x.capabilities((u16)r.edgy(16));
+    for (u32 n = r.below(5); n--;) x.add_pairwise_cypher(cs[r.below(6)]);
+    for (u32 n = r.below(5); n--;) x.add_akm_cypher(ak[r.below(6)]);
+}
 template <class A, class B> static void genfill(Rng& r, std::pair<A, B>& x);
 template <class T> static void genfill(Rng& r, std::vector<T>& x);
 template <class T> static void genfill(Rng& r, T& x) {
     if constexpr (std::is_integral<T>::value) x = (T)r.edgy(sizeof(T) * 8);
     else if constexpr (std::is_enum<T>::value) x = (T)r.below(8);
-    else { (void)r; (void)x; g_unfillable = true; }     // pointers, classes with invariants (RSNInformation, ...): no generator
+    else { (void)r; (void)x; g_unfillable = true; }     // pointers and classes without a generator
 }
 template <class A, class B> static void genfill(Rng& r, std::pair<A, B>& x) { genfill(r, x.first); genfill(r, x.second); }
 template <class T> static void genfill(Rng& r, std::vector<T>& x) { u32 n; switch (r.below(8)) { case 0: n = r.chance(1, 8) ? 0 : 2; break; case 1: n = 1; break; case 2: n = 8; break; case 3: n = 9; break; default: n = r.below(7); } x.clear(); for (u32 i = 0; i < n; ++i) { T t{}; genfill(r, t); x.push_back(t); } }
@@ -67,8 +74,14 @@ template <class Q, class A> struct Reg {
         f.scalar_kind = std::is_integral<A>::value || std::is_enum<A>::value;
         if (!g_cls.count(cls)) { ClassOps c; c.make = []() -> PDU* { Q* q = new Q(); prepare(q); return q; };
             c.parse = [](const u8* b, u32 n) -> PDU* { return parse_as<Q>(b, n, std::integral_constant<bool, std::is_constructible<Q, const uint8_t*, uint32_t>::value>()); }; g_cls[cls] = c; }
-        f.set_random = [set](PDU& o, Rng& r) { A v{}; g_unfillable = std::is_pointer<A>::value; if (!g_unfillable) genfill(r, v); if (g_unfillable) return std::string(); std::string t = txt(v); set(static_cast<Q&>(o), v); return t; };
-        f.get = [get](const PDU& o) { return txt(get(static_cast<const Q&>(o))); };
+        const std::string key = f.key;
+        f.set_random = [set, key](PDU& o, Rng& r) { A v{}; g_unfillable = false;
+            if constexpr (std::is_same<A, const uint8_t*>::value) {       // setters that copy a fixed-size array from the pointer: hand them that many generated octets
+                size_t n = fixed_array_len(key); if (!n) { g_unfillable = true; return std::string(); }
+                static uint8_t buf[512]; u32 m = r.below(4); for (size_t i = 0; i < sizeof buf; ++i) buf[i] = m == 0 ? 0 : m == 1 ? 0xff : r.byte(); v = buf;
+                set(static_cast<Q&>(o), v); return "arr:" + hex(buf, n, 4096); }
+            else { g_unfillable = std::is_pointer<A>::value; if (!g_unfillable) genfill(r, v); if (g_unfillable) return std::string(); std::string t = txt(v); set(static_cast<Q&>(o), v); return t; } };
+        f.get = [get, key](const PDU& o) { std::string s; put_named(s, key.c_str(), get(static_cast<const Q&>(o))); return s; };
         g_fields.push_back(f);
     }
 };
@@ -128,7 +141,7 @@ static void program(const std::string& cls, Rng& r) {
         try { val = f->set_random(*o, r); }
         catch (const exception_base& e) { cnt("setter_refused_argument"); o.reset(backup.release()); continue; }
         catch (const value_too_large&) { cnt("setter_refused_argument"); o.reset(backup.release()); continue; }
-        if (g_unfillable) { cnt("fields_with_ungeneratable_argument"); o.reset(backup.release()); continue; }
+        if (g_unfillable) { cnt("fields_with_ungeneratable_argument"); cnt("ungeneratable:" + f->key); o.reset(backup.release()); continue; }
         const bool is_option = o->size() != size_before; if (is_option) option_fields.insert(f->key);
         // protocol limits: IPv4/TCP option space is 40 bytes, an AH ICV is a multiple of 4: outside them the argument is not representable
         if ((cls == "IP" || cls == "TCP") && o->header_size() > 60) { cnt("argument_exceeds_option_space"); o.reset(backup.release()); continue; }
